@@ -1,6 +1,6 @@
 (** * C12: entry points for the correspondence check (float instance). *)
 From Coq Require Import ZArith List Floats.
-From Celer Require Import Base.Num Base.NumF Base.Vec3 C12.Solver C12.Surfaces C12.Transforms.
+From Celer Require Import Base.Num Base.NumF Base.Vec3 C12.Solver C12.Surfaces C12.Transforms C12.Simplify.
 Import ListNotations.
 
 Definition ofv (v : vec3 float) : list float := [vx v; vy v; vz v].
@@ -41,3 +41,10 @@ Definition run_sperm (p : sperm) (pts : list (vec3 float)) :=
    map (fun v => ofv (sp_rotate_up p v) ++ ofv (sp_rotate_down p (sp_rotate_up p v))
                  ++ ofv (sp_rotate_up p (sp_rotate_down p v))) pts,
    (sp_decode (sp_encode p))).
+
+(** (changed, flipped, surface) of one SurfaceSimplifier pass *)
+Definition run_simpl (tol : float) (s : surface float) : bool * bool * (Z * list float) :=
+  match simplify tol s with
+  | Some (s', fl) => (true, fl, surf_data s')
+  | None => (false, false, surf_data s)
+  end.
